@@ -19,6 +19,9 @@ type Access struct {
 	Fn     *ssa.Function
 	Atomic bool // object has a sync/atomic type
 	Typ    types.Type
+	// Site is the instruction of the ROOT function through which the access is reached
+	// (the access itself when it is in the root function): ordering against spawns / joins is decided on it.
+	Site ssa.Instruction
 }
 
 // LockAnalysis collects accesses under a root function, following static
@@ -73,6 +76,7 @@ func intersect(a, b lockset) lockset {
 
 // frame maps a function's receiver / free variables to object names of the root context.
 type frame struct {
+	site   ssa.Instruction // root-function instruction that led into this frame (nil in the root frame)
 	fn     *ssa.Function
 	recv   string                   // object name of *receiver ("recv", "recv.config", "" when unknown)
 	free   map[*ssa.FreeVar]string  // object name the free variable points to
@@ -249,7 +253,11 @@ func (la *LockAnalysis) record(fr *frame, obj string, write bool, held lockset, 
 	if obj == "" {
 		return
 	}
-	la.Accesses = append(la.Accesses, Access{Obj: obj, Write: write, Locks: held.list(), Instr: in, Fn: fr.fn, Atomic: isAtomicType(t), Typ: t})
+	site := fr.site
+	if site == nil {
+		site = in
+	}
+	la.Accesses = append(la.Accesses, Access{Obj: obj, Write: write, Locks: held.list(), Instr: in, Fn: fr.fn, Atomic: isAtomicType(t), Typ: t, Site: site})
 }
 
 func (la *LockAnalysis) analyse(fr *frame, entry lockset, depth int) {
@@ -257,7 +265,7 @@ func (la *LockAnalysis) analyse(fr *frame, entry lockset, depth int) {
 	if fn == nil || len(fn.Blocks) == 0 || depth > 8 {
 		return
 	}
-	key := fmt.Sprintf("%p|%s|%s", fn, fr.recv, entry.key())
+	key := fmt.Sprintf("%p|%s|%s|%p", fn, fr.recv, entry.key(), fr.site)
 	if la.seen[key] {
 		return
 	}
@@ -364,7 +372,11 @@ func (la *LockAnalysis) call(fr *frame, c *ssa.CallCommon, h lockset, site ssa.I
 		obj := la.objOf(fr, c.Args[0])
 		w := f.Name() != "Load"
 		if obj != "" {
-			la.Accesses = append(la.Accesses, Access{Obj: obj, Write: w, Locks: h.list(), Instr: site, Fn: fr.fn, Atomic: true})
+			rs := fr.site
+			if rs == nil {
+				rs = site
+			}
+			la.Accesses = append(la.Accesses, Access{Obj: obj, Write: w, Locks: h.list(), Instr: site, Fn: fr.fn, Atomic: true, Site: rs})
 		}
 		return
 	}
@@ -402,7 +414,10 @@ func (la *LockAnalysis) call(fr *frame, c *ssa.CallCommon, h lockset, site ssa.I
 	if callee == nil || !InModule(callee) || la.StopAt[callee] {
 		return
 	}
-	sub := &frame{fn: callee, free: map[*ssa.FreeVar]string{}, params: map[*ssa.Parameter]string{}}
+	sub := &frame{fn: callee, free: map[*ssa.FreeVar]string{}, params: map[*ssa.Parameter]string{}, site: fr.site}
+	if sub.site == nil {
+		sub.site = site
+	}
 	if callee.Signature.Recv() != nil && len(c.Args) > 0 {
 		sub.recv = la.objOf(fr, c.Args[0])
 		for i, p := range callee.Params {
